@@ -112,7 +112,9 @@ def _run_map(ctx, spec, rng):
                   detail={"din": din, "dout": dout, "r": r, "cls": cls})
         ctx.sample("O1:apply-choi", {"din": din, "dout": dout, "rank": r, "class": cls, "complex": cplx})
     # Choi -> Kraus on Hermitian-PSD (cp), Hermitian indefinite (hp), non-Hermitian (gen) J
-    k_lib = ctx.call(choi_to_kraus, j_ref.copy(), dim=[din, dout])
+    # the eigenvalue cut-off of choi_to_kraus is absolute (default 1e-9): for a map of small magnitude it is passed scaled, as a user would have to
+    tol_kw = {"tol": 1e-9 * mag ** 2} if mag < 1 else {}
+    k_lib = ctx.call(choi_to_kraus, j_ref.copy(), dim=[din, dout], **tol_kw)
     if k_lib is not FAILED:
         if len(k_lib) and isinstance(k_lib[0], (list, tuple)):
             ka, kb = [p[0] for p in k_lib], [p[1] for p in k_lib]
@@ -131,7 +133,7 @@ def _run_map(ctx, spec, rng):
         j1 = ctx.call(kraus_to_choi, k_lib) if len(ka) else FAILED
         if j1 is not FAILED:
             ctx.check("O4:chain", None, dev=_rel(j1, j_ref), tol=1e-6, sig=(din, dout, cls, 1), nt=nt, mech="chain:J'!=J", detail={"din": din, "dout": dout, "cls": cls})
-            k2 = ctx.call(choi_to_kraus, j1, dim=[din, dout])
+            k2 = ctx.call(choi_to_kraus, j1, dim=[din, dout], **tol_kw)
             if k2 is not FAILED and len(k2):
                 j2 = ctx.call(kraus_to_choi, k2)
                 if j2 is not FAILED:
